@@ -54,3 +54,23 @@ Proof.
   split; [exact from_request_id_sound|]. split; [exact from_response_id_sound|exact unambiguous_request].
 Qed.
 Print Assumptions C17_unambiguous.
+
+(* ---- the code is the model (regenerated each run): Request.from_payload / Response.from_payload executed on symbolic bytes of every length
+   class, Request.get_payload / Response.get_payload on symbolic fields, the service looked up by a symbolic identifier
+   (tools/symtrans.py, Gen/Fn_Messages.v) ---- *)
+From UDS Require Import Gen.Fn_Messages Proofs.Tie_messages.
+
+Theorem C17_code_request_from_payload : forall p, fn_request_from_payload p = ret (enc_req (parse_request p)).
+Proof. exact tie_request_from_payload. Qed.
+Print Assumptions C17_code_request_from_payload.
+Theorem C17_code_response_from_payload : forall p, fn_response_from_payload p = ret (obs_resp (parse_response p)).
+Proof. exact tie_response_from_payload. Qed.
+Print Assumptions C17_code_response_from_payload.
+Theorem C17_code_request_payload : forall sid sub spr data ov,
+  fn_request_payload sid sub spr data ov = (r <- mk_request (from_request_id sid) (Some sub) spr (Some data) ;; request_payload r ov).
+Proof. exact tie_request_payload. Qed.
+Print Assumptions C17_code_request_payload.
+Theorem C17_code_response_payload : forall sid code data,
+  fn_response_payload sid code data = (r <- mk_response (from_request_id sid) (Some code) (Some data) ;; response_payload r).
+Proof. exact tie_response_payload. Qed.
+Print Assumptions C17_code_response_payload.
